@@ -71,6 +71,32 @@ func checkTruncationAliasing(p *Prog, r *Result, pkg *packages.Package, rel, rul
 				}
 				n++
 				field := exprString(l)
+				// handed to a callback (a call through a function value: yield, a stored handler) earlier in the function:
+				// the callee may have kept the slice
+				escaped := ""
+				ast.Inspect(fd.Body, func(m ast.Node) bool {
+					c, ok := m.(*ast.CallExpr)
+					if !ok || c.Pos() >= as.Pos() {
+						return true
+					}
+					if calleeOf(info, c) != nil || isBuiltinCallAny(info, c) {
+						return true
+					}
+					if tv, ok := info.Types[c.Fun]; ok && tv.IsType() {
+						return true
+					}
+					for _, a := range c.Args {
+						if exprString(ast.Unparen(a)) == field {
+							escaped = exprString(c.Fun)
+						}
+					}
+					return true
+				})
+				if escaped != "" {
+					key := fmt.Sprintf("%s#%s truncated in place", funcKey(rel, fd), field)
+					r.Bad(rule, key, as.Pos(), fmt.Sprintf("%s is truncated in place after it was handed to %s(…): whoever received it may have kept it, and what is appended next overwrites the elements it holds", field, escaped))
+					continue
+				}
 				live := ""
 				last := map[types.Object]alias{} // the last assignment of each local before the truncation, in source order
 				for _, a := range aliases {
@@ -99,4 +125,14 @@ func checkTruncationAliasing(p *Prog, r *Result, pkg *packages.Package, rel, rul
 		})
 	}
 	return n
+}
+
+
+func isBuiltinCallAny(info *types.Info, c *ast.CallExpr) bool {
+	id, ok := ast.Unparen(c.Fun).(*ast.Ident)
+	if !ok {
+		return false
+	}
+	_, isB := info.Uses[id].(*types.Builtin)
+	return isB
 }
